@@ -145,6 +145,21 @@ def _make_defs(seed, n_random, n_groups):
     for (mid, t, nt, label) in single_method_traits():
         defs.append({"id": mid, "kind": "trait", "src": emit.trait_def(t).replace("#[cglue_trait]\n", "", 1), "nontrivial": nt, "label": label,
                      "extra": PRELUDE + "//@@" + dummy_impl(t, "D" + mid) + probes(mid, t), "trait": t.name, "exported": [m.name for m in t.exported()]})
+    # a trait-level result alias next to a method that opts out of integer coding (the only
+    # hand-written definitions; see known_findings.json)
+    class _T:
+        generic = None
+        def __init__(self, name):
+            self.name = name
+    for k, (ok_ty, body) in enumerate([("ResU<u64>", "Result<u8, u8>"), ("ResIo<()>", "Result<u32, i32>")]):
+        tn, mid = f"Ea{k}", f"a{k}"
+        alias = ok_ty.split("<")[0]
+        src = (f"#[int_result({alias})]\npub trait {tn} {{\n    fn {mid}_0(&self) -> {ok_ty};\n"
+               f"    #[no_int_result]\n    fn {mid}_1(&self, a0: u32) -> {body};\n}}\n")
+        imp = (f"pub struct D{mid};\nimpl {tn} for D{mid} {{\n    fn {mid}_0(&self) -> {ok_ty} {{ loop {{}} }}\n"
+               f"    fn {mid}_1(&self, a0: u32) -> {body} {{ loop {{}} }}\n}}")
+        defs.append({"id": mid, "kind": "trait", "src": src, "nontrivial": True, "label": "trait-level-result-alias/no_int_result",
+                     "extra": PRELUDE + "//@@" + imp + probes(mid, _T(tn)), "trait": tn, "exported": [f"{mid}_0", f"{mid}_1"]})
     rnd = []
     for k in range(n_random):
         trng = random.Random(rng.getrandbits(64))
